@@ -97,6 +97,7 @@ func vUniteSetup(timed bool) *vUniteEnv {
 			e.emitted = append(e.emitted, x)
 		}
 		e.outVals = append(e.outVals, vals)
+		vAdvance() // real time passes between the discipline's own clock readings (e.g. while it was blocked on this send)
 		e.times = append(e.times, vNow())
 		if !opts.NoCopy {
 			vHavocSlice(s)
